@@ -42,8 +42,10 @@ NoMd == [md |-> "none", hasT |-> FALSE, crt |-> 0, mot |-> 0]
 MdOf(e) == [md |-> e.md, hasT |-> e.hasT, crt |-> e.crt, mot |-> e.mot]
 
 \* is_allowed_in_immutable_directory
+\* (unknown.py: "An UnknownNode consisting only of a ro_uri is allowed in an immutable directory")
 DeepImm(W, c) == \/ (c.type = "file" /\ c.id \in ImmFileIds /\ ~c.w)
                  \/ (c.type = "dir" /\ c.id \in W.imm /\ ~c.w)
+                 \/ (c.type = "unknown" /\ ~c.w)
 
 \* the authority a handle gives: an immutable directory is read-only whatever the handle
 EffVia(W, d, via) == IF d \in W.imm THEN "ro" ELSE via
@@ -67,6 +69,9 @@ InitFold(f, kids, i) ==
   IF i > Len(kids) THEN f
   ELSE InitFold(Put(f, Norm(kids[i].name), InitEntry(kids[i].child, kids[i].md)), kids, i + 1)
 InitContents(kids) == InitFold(<<>>, kids, 1)
+\* the entry of kids that survives under the normal form n
+LastOf(kids, n) == CHOOSE i \in 1..Len(kids) : Norm(kids[i].name) = n /\ \A j \in (i + 1)..Len(kids) : Norm(kids[j].name) # n
+Survivors(kids) == {LastOf(kids, n) : n \in {Norm(kids[i].name) : i \in 1..Len(kids)}}
 
 \* an immutable directory is its contents (convergent CHK / literal cap): creating the
 \* same contents again yields the same object
@@ -81,7 +86,8 @@ Mkdir(W, o, newid, now) ==
       id    == IF o.mutable THEN newid ELSE ImmTarget(W, contents, newid)
       child == [id |-> id, type |-> "dir", w |-> o.mutable]
   IN IF EffVia(W, o.d, o.via) = "ro" THEN RM("NotWriteableError", W, NoChild)
-     ELSE IF ~o.mutable /\ \E i \in 1..Len(o.kids) : ~DeepImm(W, o.kids[i].child)
+     \* only the entries that are packed are looked at
+     ELSE IF ~o.mutable /\ \E i \in Survivors(o.kids) : ~DeepImm(W, o.kids[i].child)
        THEN RM("MustBeDeepImmutableError", W, NoChild)
      ELSE LET a == Add(W.D, o.d, "rw", o.name, child, o.md, o.ow, now) IN
           IF a.st # "ok" THEN RM(a.st, W, NoChild)          \* the new directory stays unlinked
@@ -188,10 +194,10 @@ XM_FailedNoChange(W, W2, o, r, now) == ~IsOk(r.st) => W2 = W
 XM_Frame(W, W2, o, r, now) ==
   \A d \in DOMAIN W.D : (d # o.d /\ ~(o.op = "move" /\ d = o.dd)) => W2.D[d] = W.D[d]
 
-LastOf(kids, n) == CHOOSE i \in 1..Len(kids) : Norm(kids[i].name) = n /\ \A j \in (i + 1)..Len(kids) : Norm(kids[j].name) # n
 XM_Mkdir(W, W2, o, r, now) ==
   o.op = "mkdir" =>
-    /\ (~o.mutable /\ ~ReadOnlyCall(W, o) /\ \E i \in 1..Len(o.kids) : ~DeepImm(W, o.kids[i].child))
+    /\ (~o.mutable /\ ~ReadOnlyCall(W, o) /\
+          \E i \in 1..Len(o.kids) : ~DeepImm(W, o.kids[i].child) /\ \A j \in (i + 1)..Len(o.kids) : Norm(o.kids[j].name) # Norm(o.kids[i].name))
           => r.st = "MustBeDeepImmutableError"
     /\ r.st \in {"ok", "NotWriteableError", "ExistingChildError", "MustBeDeepImmutableError"}
     /\ (r.st = "ExistingChildError") => Has(W.D, o.d, Norm(o.name)) /\ o.ow # "true"
